@@ -6,21 +6,39 @@ from .. import astutil as au
 from ..frontend import AnalysisError
 
 
-def dict_call_keys(fn, var='d'):
-    """Keys of `d = dict(k=v, ...)` in function `fn` -> {key: value expr}."""
+def dict_call_keys(fn, var=None):
+    """Keys of the dictionary handed to `pickle.dump(<d>, ...)`, built by
+    `<d> = dict(k=v, ...)` -> {key: value expr}."""
+    if var is None:
+        for c in au.calls_in(fn, 'dump'):
+            if c.args and isinstance(c.args[0], ast.Name):
+                var = c.args[0].id
     for n in au.walk_no_defs(fn):
-        if isinstance(n, ast.Assign) and au.is_name(
+        if isinstance(n, ast.Assign) and var and au.is_name(
                 n.targets[0], var) and isinstance(n.value, ast.Call) and \
                 au.call_name(n.value) == 'dict':
             return {k.arg: k.value for k in n.value.keywords if k.arg}
     return None
 
 
-def subscript_keys(fn, var='d'):
-    """Constant keys read as `d['key']`."""
+def loaded_name(fn):
+    """Name bound to the result of `pickle.load(...)`."""
+    for n in au.walk_no_defs(fn):
+        if isinstance(n, ast.Assign) and isinstance(
+                n.value, ast.Call) and au.call_name(
+                    n.value) == 'load' and isinstance(
+                        n.targets[0], ast.Name):
+            return n.targets[0].id
+    return None
+
+
+def subscript_keys(fn, var=None):
+    """Constant keys read as `<d>['key']` from the loaded dictionary."""
+    if var is None:
+        var = loaded_name(fn)
     out = dict()
     for n in au.walk_no_defs(fn):
-        if isinstance(n, ast.Subscript) and au.is_name(
+        if isinstance(n, ast.Subscript) and var and au.is_name(
                 n.value, var) and isinstance(n.slice, ast.Constant):
             out.setdefault(n.slice.value, n)
     return out
@@ -77,8 +95,15 @@ def pickle_keys(P, R):
     # the node table of the dump is a restriction of _succ
     gens = [n for n in au.walk_no_defs(w.node)
             if isinstance(n, ast.GeneratorExp)]
-    ok = any(au.src(g.elt).replace(' ', '') == '(k,self._succ[k])'
-             for g in gens)
+    ok = False
+    for g in gens:
+        e = g.elt
+        if isinstance(e, ast.Tuple) and len(e.elts) == 2 and isinstance(
+                e.elts[1], ast.Subscript) and au.chain(
+                    e.elts[1].value) == ['self', '_succ'] and au.src(
+                        e.elts[1].slice) == au.src(e.elts[0]) and au.src(
+                            g.generators[0].target) == au.src(e.elts[0]):
+            ok = True
     if ok:
         R.holds('R-FORMAT', w.qualname, 'succ = {k: self._succ[k]} over '
                 'the reachable nodes (layout of _succ kept)')
@@ -102,12 +127,13 @@ def pickle_keys(P, R):
     else:
         R.holds('R-FORMAT', wm.qualname, 'stores all persistent tables')
     restored = dict()
+    dname = loaded_name(rm.node)
     for n in au.walk_no_defs(rm.node):
         if isinstance(n, ast.Assign) and isinstance(
-                n.targets[0], ast.Attribute) and au.is_name(
-                    n.targets[0].value, 'bdd') and isinstance(
-                        n.value, ast.Subscript) and au.is_name(
-                            n.value.value, 'd'):
+                n.targets[0], ast.Attribute) and isinstance(
+                    n.targets[0].value, ast.Name) and isinstance(
+                        n.value, ast.Subscript) and dname and au.is_name(
+                            n.value.value, dname):
             restored['self.' + n.targets[0].attr] = n.value.slice.value
     bad = []
     for k, a in attr_of.items():
@@ -417,12 +443,14 @@ def r_dispatch(P, R):
     for c in au.calls_in(f.node):
         if au.call_recv(c) == ['self'] and au.call_name(c) in (
                 'cofactor', 'compose', 'rename'):
-            a = [au.src(x) for x in c.args]
-            if a != ['u', 'd']:
+            a = [au.alias_of(f.node, x.id) if isinstance(x, ast.Name)
+                 else au.src(x) for x in c.args]
+            params = [x for x in f.params if x != 'self']
+            if a != [params[1], params[0]]:
                 R.violation(
                     'R-DISPATCH', 'arguments', f.qualname,
                     au.call_name(c),
-                    f'`{au.short(c)}` does not pass (u, d)',
+                    f'`{au.short(c)}` does not pass (u, definitions)',
                     unit=f.unit.rel, line=c.lineno)
     # dd.autoref.let converts Function values to nodes, nothing else
     g = P.func('dd.autoref.BDD.let')
